@@ -403,7 +403,7 @@ def measure2(cases, lines):
 
 # ----------------------------------------------------------------------------------------------- stages
 GEN = ['gen_keeper.json', 'gen_arrit.json', 'gen_shifter.json', 'gen_array.json', 'gen_mmguard.json', 'gen_selguard.json',
-       'gen_dtguard.json', 'gen_treeit.json', 'gen_segarr.json']
+       'gen_dtguard.json', 'gen_treeit.json', 'gen_segarr.json', 'gen_rawit.json']
 
 
 def regen_table(ctx):
@@ -416,7 +416,10 @@ def regen_table(ctx):
                                            ', '.join('%s::%s' % (r['class'], r['method']) for r in missing[:6]))
         lk = vtable.leaks(ctx.repo)
         ctx.coverage['structural_write_without_bump'] = lk
-        txt = vtable.to_coq(rows, lk)
+        nx = vtable.noexcept_checked_paths(ctx.repo); sites = vtable.stale_check_sites(ctx.repo)
+        ctx.coverage['noexcept_checked_paths'] = {'offenders': nx[0], 'client_operators_scanned': nx[1]}
+        ctx.coverage['stale_check_sites'] = sites
+        txt = vtable.to_coq(rows, lk, nx, sites)
         old = open(out).read() if os.path.exists(out) else None
         if old != txt:
             open(out, 'w').write(txt)
@@ -444,7 +447,7 @@ def replay(ctx, rp):
     case = rp.get('case')
     if not case:
         print('replay has no concrete case (no-failing-input-found): broken stages were', list(rp.get('broken', {}).keys())); return 1
-    src, exe = {'harness2': ('harness2.cpp', 'harness2'), 'harness3': ('harness3.cpp', 'harness3')}.get(rp.get('harness'), ('harness.cpp', 'harness'))
+    src, exe = {'harness2': ('harness2.cpp', 'harness2'), 'harness3': ('harness3.cpp', 'harness3'), 'ubsan_adv': ('ubsan_adv.cpp', 'ubsan_adv')}.get(rp.get('harness'), ('harness.cpp', 'harness'))
     h = ctx.cxx(src, exe)
     if h is None:
         print('harness does not build'); return 2
@@ -459,11 +462,8 @@ def replay(ctx, rp):
 
 
 def finding_key(case, why=''):
-    """key of a reported-but-not-yet-fixed momo defect this failing case is an instance of (for known_findings.txt), else None"""
-    w = case.split()
-    # ArrayIndexIterator::operator+= adds in ptrdiff_t: index + diff overflows (UB, UBSan in the thorough tier) before the check
-    if len(w) == 6 and w[0] == 'g' and w[1] == 'adv' and 'CRASH' in why and int(w[4]) + int(w[5]) >= 2 ** 63:
-        return 'arrayindexiterator-advance-signed-overflow'
+    """key of a reported-but-not-yet-fixed momo defect this failing case is an instance of (for known_findings.txt), else None.
+    No open findings (the signed-overflow key of grow round 2 was dropped when /repo commit e44962b fixed it)."""
     return None
 
 
@@ -519,8 +519,10 @@ def run(ctx):
     regen_table(ctx)
     ctx.prove()
     jobs = [('harness.cpp', 'harness', []), ('harness2.cpp', 'harness2', []), ('harness3.cpp', 'harness3', [])]
+    UB = ['-fsanitize=undefined', '-fno-sanitize-recover=all']
     jobs = [j for j in jobs if os.path.exists(os.path.join(ctx.pdir, j[0]))]
     built = ctx.cxx_many(jobs)
+    ubsan = ctx.cxx('ubsan_adv.cpp', 'ubsan_adv', UB, sanitize=False)        # small TU, UBSan in every tier (fix e44962b)
     harness = built.get('harness')
     if harness is None:
         ctx.stage('build-harness', False, getattr(ctx, 'last_cxx_error', ''))
@@ -619,6 +621,23 @@ def run(ctx):
             bad3.sort(key=lambda b: finding_key(b[0], b[2]) is not None)
             ctx.stage('oracle3', not bad3 and rc == 0, (bad3[0][2] + ' :: ' + bad3[0][0][:300]) if bad3 else err[-300:])
             report(ctx, bad3, 'harness3')
+    # ---- iterator += under UBSan (quick tier too): no signed overflow, and the same outcomes as the generated guards
+    if ubsan is None:
+        ctx.stage('build-ubsan', False, getattr(ctx, 'last_cxx_error', ''))
+    else:
+        import cases3 as _c3
+        cu = _c3.gen_ubsan()
+        rcu, lu, eu = run_harness(ctx, ubsan, cu, 'ubsan')
+        ctx.evaluations += len(cu)
+        badu = [(c, o, 'iterator += under UBSan: %s' % o) for c, o in zip(cu, lu) if o.startswith('CRASH') or o.startswith('?') or o == '<missing>' or o == 'X']
+        if have_model:
+            mu, _ = ctx.correspond('ubsan-advance-vs-generated-guards', cu, [ubsan], [ctx.model_exe])
+            ctx.tie_obligations.append({'name': 'iterator operator+= / -> under UBSan == generated guards on %d boundary cases' % len(cu), 'ok': not mu})
+            badu += [(c, a, 'generated guard and real operator disagree: real=%s generated=%s' % (a, b)) for (i, c, a, b) in mu]
+        ctx.stage('oracle-ubsan', not [b for b in badu if 'UBSan' in b[2]] and rcu == 0, badu[0][2] + ' :: ' + badu[0][0] if badu else eu[-300:])
+        ctx.coverage['ubsan_advance_cases'] = len(cu)
+        for (c, o, why) in badu[:3]:
+            ctx.violation(why, {'case': c, 'impl_output': o, 'harness': 'ubsan_adv', 'cmd': 'echo "%s" | build/C15/ubsan_adv' % c}, found_input=True)
     for c in cases[::max(1, len(cases) // 6)][:6]:
         ctx.add_sample(c[:400])
     dist = {'set_like (harness.cpp)': measure(cases, lines)}
